@@ -272,7 +272,7 @@ func runC05(c *Ctx) {
 	}
 	// sampled: larger clusters, random walks down the decision tree
 	rng := c.Rng(0)
-	nSample := c.Pick(1500, 20000)
+	nSample := c.Pick(1500, 400000)
 	for i := 0; i < nSample; i++ {
 		h := 3 + rng.Intn(2)
 		cn := 1 + rng.Intn(2)
@@ -345,17 +345,17 @@ func runC05(c *Ctx) {
 	}
 	r.Exhaustive = false
 	// targeted: the request's connection dies between registration and write
-	for i := 0; i < c.Pick(8, 80); i++ {
+	for i := 0; i < c.Pick(8, 800); i++ {
 		if c.Mine(i) || c.Replay != nil {
 			sendGate(c, i, i%2 == 0, 2+i%2)
 		}
 	}
-	for i := 0; i < c.Pick(6, 60); i++ {
+	for i := 0; i < c.Pick(6, 600); i++ {
 		if c.Mine(i+3) || c.Replay != nil {
 			sameHostRetryHostLost(c, i, i%2 == 0, 1+i%3)
 		}
 	}
-	for i := 0; i < c.Pick(8, 48); i++ {
+	for i := 0; i < c.Pick(8, 480); i++ {
 		if c.Mine(i+1) || c.Replay != nil {
 			partialPool(c, i, 2+i%2)
 		}
